@@ -123,7 +123,8 @@ pub struct Expect {
     pub range_len: usize,
     /// the leading syllables of the range (= the whole range when `all_syllables`)
     pub key: Vec<chewing::zhuyin::Syllable>,
-    /// every phrase a system layer or the user layer holds for exactly these syllables
+    /// every phrase a system layer or the user layer holds for these syllables under the selector's lookup
+    /// strategy (exactly these syllables, or — FuzzyPartialPrefix — a key they are a per-syllable prefix of)
     pub own: Vec<String>,
     /// one-syllable ranges: the phrases held for the layout's alternative syllables
     pub alt: Vec<String>,
